@@ -300,6 +300,7 @@ func c14Gen(r *Run, rng *gen.Rng, corpus []string) *c14Hist {
 			h.Steps = append(h.Steps, c14Step{Kind: "edit", Rel: rel, Version: 0})
 		}
 	}
+	h.Steps = append(h.Steps, c14Step{Kind: "epoch", Jump: int64(1 + rng.Intn(1<<20))}) // another day, host, user, environment
 	for pi := len(h.Progs) - 1; pi >= 0; pi-- {
 		for _, t := range []string{"batch", "bash"} {
 			h.Steps = append(h.Steps, c14Step{Kind: "T", Prog: pi, Target: t, Obj: 0, MapMode: "shuffle", MapSeed: rng.U64(), Spelling: "abs"})
